@@ -516,7 +516,9 @@ class POXCore (EventMixin):
       callback.__name__ = "<None>"
     if isinstance(components, str):
       components = [components]
-    elif isinstance(components, set):
+    elif isinstance(components, (set, list, tuple)):
+      # (An empty list or tuple has no components[0], but it's still a
+      # sequence of component names and not a component name itself.)
       components = list(components)
     else:
       try:
